@@ -74,7 +74,23 @@ func vfAnnounceHistory(t *testing.T, rng *rand.Rand, nops int) (lit string, rec 
 		var lits []string
 		var recSteps []map[string]any
 		nFlip, nReset := 0, 0
+		burst := 0
+		var burstOps []string
+		var observeNow func(op string)
 		observe := func(op string) {
+			// bursts: several operations back to back (tiny queues then refuse pushes), observed once at the end
+			if burst > 0 {
+				burst--
+				burstOps = append(burstOps, op)
+				if burst > 0 {
+					return
+				}
+				op = strings.Join(burstOps, " ; ")
+				burstOps = nil
+			}
+			observeNow(op)
+		}
+		observeNow = func(op string) {
 			// quiet: retries sleep up to a second; a few rounds
 			for k := 0; k < 4; k++ {
 				time.Sleep(1500 * time.Millisecond)
@@ -120,6 +136,9 @@ func vfAnnounceHistory(t *testing.T, rng *rand.Rand, nops int) (lit string, rec 
 			a := rng.Intn(nn)
 			n := nodes[a]
 			tp := rng.Intn(2)
+			if burst == 0 && rng.Intn(3) == 0 {
+				burst = 2 + rng.Intn(4)
+			}
 			switch r := rng.Intn(100); {
 			case r < 22:
 				b := rng.Intn(nn)
@@ -233,6 +252,10 @@ func vfAnnounceHistory(t *testing.T, rng *rand.Rand, nops int) (lit string, rec 
 				nReset++
 				observe(fmt.Sprintf("reset-outbound-pubsub-stream %d->%d", a, b))
 			}
+		}
+		if len(burstOps) > 0 {
+			burst = 0
+			observeNow(strings.Join(burstOps, " ; "))
 		}
 		lit = "[" + strings.Join(lits, ";\n    ") + "]"
 		rec = map[string]any{"steps": recSteps}
